@@ -34,7 +34,8 @@ Base ==
     par   |-> [t \in {1, 2, 3, 4, 5, 118} |-> CASE t = 118 -> {1} [] t = 2 -> {118} [] t = 3 -> {2, 118} [] OTHER -> {}],
     recs  |-> [k \in EKinds |->
                  CASE k = "gene"  -> (7 :> [name |-> NameA, hpos |-> {2, 3}]) @@ (8 :> [name |-> NameB, hpos |-> IF LongNames THEN {118} ELSE {}])
-                   [] k = "omim"  -> (7 :> [name |-> NameA, hpos |-> {3}])
+                   \* omim 6: three direct terms, so that two edits can exchange the MIDDLE one (same size, same smallest and largest id)
+                   [] k = "omim"  -> (7 :> [name |-> NameA, hpos |-> {3}]) @@ (6 :> [name |-> NameB, hpos |-> {1, 3, 118}])
                    [] OTHER       -> (7 :> [name |-> NameA, hpos |-> {118}])] ]
 
 AllIds == {1, 2, 3, 4, 5, 118}
